@@ -84,6 +84,20 @@ def branch_ok(pipeline):
     return True
 
 
+def aliasing_hazard(pipeline):
+    """A streaming scan whose accumulator is mutated in place emits the SAME live object on every item.  Behind take/first
+    a plain observable disposes the scan while a multiplexed key keeps feeding it, so an object retained downstream keeps
+    changing in one mode only.  That is a consequence of the user's mutating accumulator plus the documented completion
+    difference, not of multiplexing; such programs are outside what C01 states and are not generated."""
+    live = False
+    for o in pipeline:
+        if o[0] == 'scan' and o[1] == 'append' and not (len(o) > 3 and o[3]):
+            live = True
+        elif live and o[0] in ENDS_EARLY:
+            return True
+    return False
+
+
 def pipelines(depth, in_type='I', ops=None):
     """All well-typed pipelines of exactly `depth` operators: list of (pipeline, out_type)."""
     ops = OPS_T if ops is None else ops
@@ -92,7 +106,7 @@ def pipelines(depth, in_type='I', ops=None):
     out = []
     for head, t in pipelines(depth - 1, in_type, ops):
         for spec, sig in ops:
-            if t in sig:
+            if t in sig and not aliasing_hazard(head + [spec]):
                 out.append((head + [spec], sig[t]))
     return out
 
